@@ -299,7 +299,7 @@ EXTRA = {
     "C08": " Added: the terminal-state transition depends only on name and state; every declared schema ends up registered (registration rules shared with C02).",
     "C09": " Added: compare-only generation compares the core for every layout in which it lies outside the client package (guard evaluated over symbolic layouts incl. textual-prefix siblings); the registry entry of a client is overwritten, never kept.",
     "C10": " Added: the same diff-coverage rule; a write path built from the parent of a directory the function was given (a sibling write) is a violation.",
-    "C11": " Added: the import header of the regenerated alias file covers every base class the union of codes can need; string-prefix predicates are modelled by the path algebra; the shared-core predicate must also hold for a core embedded in the first client's package (it becomes shared when a later client names it).",
+    "C11": " Added: the import header of the regenerated alias file covers every base class the union of codes can need; string-prefix predicates are modelled by the path algebra; the shared-core predicate must also hold for a core embedded in the first client's package (it becomes shared when a later client names it); a removal of the output package that precedes the exception emitter carries the registry of a contained core over.",
     "C12": " Added: producers of dot-relative module paths (RenderContext path helpers) may only feed add_relative_import, never an absolute import registration.",
     "C13": " Added: every EndpointVisitor is built over the schema registry (a mock signature otherwise differs for inline item types); a consumer that reads the coroutine/async-generator nature from the single line closing a rendered signature obliges the signature writer to keep the whole return annotation on that line; instance-level memo tables of the shared endpoint generators are keyed by every parameter the value is computed from.",
     "C14": " Added: the generated get_mapping() has one entry per discriminator value (written from the spec's mapping or an item-wise sequence of it, never from a re-keyed dict); no converter function memoises per type (functools cache / table) a sequence derived from the member order of that type (typing.Union equality ignores order).",
